@@ -24,16 +24,19 @@ FailedKey(r, key) ==
       S == TrialsOf(r.layout, T, key)
       o == r.observed[key]
       k == o.k
+      \* every trial of the pool stands for r.mult identical trials (large data
+      \* points); the estimators are ratios and do not depend on mult
+      m == r.mult
       n == NTrials(S)
       nf == NFail(S, T)
   IN (IF o.present THEN {} ELSE {"key_reported"})
-\cup (IF ~o.present \/ (o.n_trials = n /\ o.n_fail = nf) THEN {} ELSE {"pooled_n_trials_and_n_fail"})
+\cup (IF ~o.present \/ (o.n_trials = m * n /\ o.n_fail = m * nf) THEN {} ELSE {"pooled_n_trials_and_n_fail"})
 \cup (IF ~o.present \/ Close(o.p_est_k, nf, n, 2) THEN {} ELSE {"p_est_is_n_fail_over_n_trials"})
      \* p_se^2 (n + 1) = p (1 - p)
 \cup (IF ~o.present \/ Close(o.p_se2n1_k, nf * (n - nf), n * n, 2) THEN {} ELSE {"p_se_is_sqrt_p_1_minus_p_over_n_plus_1"})
-\cup (IF ~o.present \/ (o.n_trials_X = NTrialsSector(S, T, k) /\ o.n_trials_Z = NTrialsSector(S, T, k))
+\cup (IF ~o.present \/ (o.n_trials_X = m * NTrialsSector(S, T, k) /\ o.n_trials_Z = m * NTrialsSector(S, T, k))
       THEN {} ELSE {"sector_trials_are_k_times_in_codespace_trials"})
-\cup (IF ~o.present \/ (o.n_fail_X = NFailX(S, T, k) /\ o.n_fail_Z = NFailZ(S, T, k))
+\cup (IF ~o.present \/ (o.n_fail_X = m * NFailX(S, T, k) /\ o.n_fail_Z = m * NFailZ(S, T, k))
       THEN {} ELSE {"sector_fails_are_flagged_bits_among_in_codespace_trials"})
      \* (1 - p_word)^k = 1 - p
 \cup (IF ~o.present \/ Close(o.word_k, n - nf, n, 2) THEN {} ELSE {"word_error_rate_formula"})
